@@ -110,7 +110,7 @@ Proof. intro n. exact (proj1 (Proofs.trace_in_syntax n)). Qed.
 
 (* ---- I ---------------------------------------------------------------------------------------- *)
 (* compile_control_correct (compile s on the VM = S) is NOT proved: on the current tree it is false
-   (the witnesses below: C08-N2, C08-N4, C08-N5, C08-N6, F12), and the carved-out partial statement was not finished in this round. *)
+   (the witnesses below: C08-N2, C08-N4, C08-N5, C08-N6), and the carved-out partial statement was not finished in this round. *)
 
 (* regression of the repaired finding C08-N1 (enterFinally now disarms the catch) *)
 Theorem finally_throw_not_caught_by_own_catch :
@@ -134,29 +134,29 @@ Theorem nested_branch_loses_value_refuted :
   exists prog sc, run_S 100 false prog sc = ([], OValue (VNum 1)) /\ run_I 1000 false prog sc = ([], OValue VUndef).
 Proof. exact ProofsI.nested_branch_loses_value_refuted. Qed.
 
-Theorem uncatchable_runs_nothing_refuted :
-  exists prog sc, run_S 100 true prog sc = ([ENext 7; EEv 5], OUnc PStackOverflow) /\
-                  run_I 1000 true prog sc = ([ENext 7; EEv 5; EReturn 7], OUnc PStackOverflow).
-Proof. exact ProofsI.uncatchable_runs_nothing_refuted. Qed.
-
-(* uncatchable_runs_nothing on I, partial: for EVERY VM state and try stack, unwinding an uncatchable payload
-   emits no event if the interrupt flag is set or no iterator is open *)
-Theorem uncatchable_runs_nothing_partial : forall p fs st, quiet st ->
+(* uncatchable_runs_nothing on I (full, since fix 22853aa of finding F12): for EVERY VM state, try stack and
+   payload, unwinding an uncatchable error emits no event *)
+Theorem uncatchable_runs_nothing : forall p fs st,
   match handle_throw None p st fs with
   | UncOut q st' => q = p /\ trace st' = trace st
   | Crashed => True
   | _ => False
   end.
-Proof. exact ProofsI.handle_throw_unc_quiet. Qed.
+Proof. exact ProofsI.uncatchable_runs_nothing. Qed.
 
-Theorem interrupt_runs_nothing : forall code st,
-  nth_error code (pc st) = Some (IUnc PInterrupt) ->
+Theorem uncatchable_step_runs_nothing : forall code st p,
+  nth_error code (pc st) = Some (IUnc p) ->
   match vm_step code st with
-  | UncOut q st' => q = PInterrupt /\ trace st' = trace st
+  | UncOut q st' => q = p /\ trace st' = trace st
   | Crashed => True
   | _ => False
   end.
-Proof. exact ProofsI.interrupt_runs_nothing. Qed.
+Proof. exact ProofsI.uncatchable_step_runs_nothing. Qed.
+
+Example uncatchable_in_forof_regression :
+  run_I 1000 true w_f12 [] = run_S 100 true w_f12 [] /\
+  run_S 100 true w_f12 [] = ([ENext 7; EEv 5], OUnc PStackOverflow).
+Proof. exact ProofsI.uncatchable_in_forof_regression. Qed.
 
 (* the VM's finally dispatch: leaveTry parks pc+1 in finallyRet and leaveFinally resumes there, frame popped *)
 Theorem leaveTry_leaveFinally_roundtrip : forall code st tf r fp,
@@ -179,7 +179,6 @@ Print Assumptions pending_return_value_refuted.
 Print Assumptions finally_nested_break_value_refuted.
 Print Assumptions caught_throw_stale_value_refuted.
 Print Assumptions nested_branch_loses_value_refuted.
-Print Assumptions uncatchable_runs_nothing_refuted.
-Print Assumptions uncatchable_runs_nothing_partial.
-Print Assumptions interrupt_runs_nothing.
+Print Assumptions uncatchable_runs_nothing.
+Print Assumptions uncatchable_step_runs_nothing.
 Print Assumptions leaveTry_leaveFinally_roundtrip.
